@@ -2,6 +2,7 @@ package main
 
 import (
 	"math"
+	"math/big"
 
 	"github.com/paulmach/orb"
 	"github.com/paulmach/orb/planar"
@@ -78,10 +79,10 @@ func init() {
 			}
 			c.emit(e)
 		}
-		n := c.pick(12000, 250000)
+		n := c.pick(13500, 281250)
 		steps := [][3]int{{1, 0, 1}, {0, 2, 2}, {-3, 0, 3}, {3, 4, 5}, {-4, 3, 5}, {0, -1, 1}, {0, 0, 0}, {5, 12, 13}}
 		for i := 0; i < n; i++ {
-			switch i % 8 {
+			switch i % 9 { // (8: the default branch, Length)
 			case 0: // rings and their rotations / reversals / translations: |v| <= 12 keeps the moments in 32 bits
 				for _, r := range variants(ring(12, 8)) {
 					area("ring", [][][][2]int{{r}}, ringOf(r, 1))
@@ -317,6 +318,14 @@ func init() {
 					x0, y0 := iv(6), iv(6)
 					bw, bh := c.rng.Intn(8), c.rng.Intn(8)
 					b := orb.Bound{Min: orb.Point{float64(x0), float64(y0)}, Max: orb.Point{float64(x0 + bw), float64(y0 + bh)}}
+					switch c.rng.Intn(6) { // corners given the other way round in one coordinate or both: the same four sides
+					case 0:
+						b.Min[0], b.Max[0] = b.Max[0], b.Min[0]
+					case 1:
+						b.Min[1], b.Max[1] = b.Max[1], b.Min[1]
+					case 2:
+						b.Min, b.Max = b.Max, b.Min
+					}
 					if bw >= 2 && bh >= 2 && c.rng.Intn(2) == 0 { // a query point strictly inside the box: the distance is to the nearest side
 						p = [2]int{x0 + 1 + c.rng.Intn(bw-1), y0 + 1 + c.rng.Intn(bh-1)}
 						pt = orb.Point{float64(p[0]), float64(p[1])}
@@ -362,7 +371,7 @@ func init() {
 				}
 				c.emit(e)
 			case 7:
-				if i%3 == 0 {
+				if c.rng.Intn(3) == 0 {
 					// a long line: n vertices one unit apart (a staircase): its length is n - 1, through every kind that can hold it
 					n := []int{500, 512, 513, 514, 1024, 1025, 2049, 5000}[c.rng.Intn(8)]
 					ls := make(orb.LineString, n)
@@ -464,6 +473,14 @@ func init() {
 				case 4:
 					x0, y0, bw, bh := iv(6), iv(6), c.rng.Intn(8), c.rng.Intn(8)
 					b := orb.Bound{Min: orb.Point{float64(x0), float64(y0)}, Max: orb.Point{float64(x0 + bw), float64(y0 + bh)}}
+					switch c.rng.Intn(6) { // corners given the other way round in one coordinate or both: the same four sides
+					case 0:
+						b.Min[0], b.Max[0] = b.Max[0], b.Min[0]
+					case 1:
+						b.Min[1], b.Max[1] = b.Max[1], b.Min[1]
+					case 2:
+						b.Min, b.Max = b.Max, b.Min
+					}
 					paths = [][][2]int{{{x0, y0}, {x0 + bw, y0}, {x0 + bw, y0 + bh}, {x0, y0 + bh}, {x0, y0}}}
 					g = b
 					if c.rng.Intn(2) == 0 {
@@ -481,5 +498,65 @@ func init() {
 				c.emit(e)
 			}
 		}
+		// distance to long segments from points close to them and far from their start (integer coordinates up to 2^20:
+		// the exact value is computed with big integers here, TLC's 32-bit integers do not reach that far; the
+		// relative error, in units of 1e-12, is what the spec bounds by 1e-9)
+		for i := 0; i < c.pick(3000, 60000); i++ {
+			big20 := func() int { return c.rng.Intn(1<<21+1) - 1<<20 }
+			a, b := [2]int{big20(), big20()}, [2]int{big20(), big20()}
+			if c.rng.Intn(3) == 0 { // nearly axis-parallel and very long
+				b = [2]int{-a[0], a[1] + c.rng.Intn(9) - 4}
+			}
+			if a == b {
+				continue
+			}
+			// a point near the segment: somewhere along it (or a little beyond an end), a few units to the side
+			t := c.rng.Float64()*1.2 - 0.1
+			p := [2]int{a[0] + int(t*float64(b[0]-a[0])) + c.rng.Intn(41) - 20, a[1] + int(t*float64(b[1]-a[1])) + c.rng.Intn(41) - 20}
+			want := exactSegDist(a, b, p)
+			if want < 2 {
+				// (closer than that the foot of the perpendicular, which is rounded at coordinate size, decides the relative
+				// error of any floating-point computation: 2^21 * 2^-52 against a distance of a fraction of a unit)
+				continue
+			}
+			fa, fb, fp := orb.Point{float64(a[0]), float64(a[1])}, orb.Point{float64(b[0]), float64(b[1])}, orb.Point{float64(p[0]), float64(p[1])}
+			e := map[string]interface{}{"k": "distbig", "nt": 1}
+			setCurrent("planar.DistanceFromSegment(long)", []interface{}{a, b, p})
+			site := guard(func() {
+				rel := func(got float64) int { return clipInt(math.Abs(got-want) / want * 1e12) }
+				d, _ := planar.DistanceFromWithIndex(orb.LineString{fa, fb}, fp)
+				e["rel"] = []int{rel(planar.DistanceFromSegment(fa, fb, fp)), rel(math.Sqrt(planar.DistanceFromSegmentSquared(fa, fb, fp))),
+					rel(planar.DistanceFrom(orb.LineString{fa, fb}, fp)), rel(planar.DistanceFrom(orb.Ring{fb, fa, fb}, fp)), rel(d)}
+			})
+			if site != "" {
+				c.emit(panicEvent("planar.DistanceFromSegment", site, e))
+				continue
+			}
+			c.emit(e)
+		}
 	})
+}
+
+// exactSegDist is the distance from p to the segment ab, computed with big integers and one correctly rounded
+// square root of a 200-bit quotient.
+func exactSegDist(a, b, p [2]int) float64 {
+	bi := func(v int) *big.Int { return big.NewInt(int64(v)) }
+	dx, dy, px, py := bi(b[0]-a[0]), bi(b[1]-a[1]), bi(p[0]-a[0]), bi(p[1]-a[1])
+	dot := new(big.Int).Add(new(big.Int).Mul(px, dx), new(big.Int).Mul(py, dy))
+	lenSq := new(big.Int).Add(new(big.Int).Mul(dx, dx), new(big.Int).Mul(dy, dy))
+	num, den := new(big.Int), big.NewInt(1)
+	switch {
+	case dot.Sign() <= 0:
+		num.Add(new(big.Int).Mul(px, px), new(big.Int).Mul(py, py))
+	case dot.Cmp(lenSq) >= 0:
+		qx, qy := bi(p[0]-b[0]), bi(p[1]-b[1])
+		num.Add(new(big.Int).Mul(qx, qx), new(big.Int).Mul(qy, qy))
+	default:
+		cross := new(big.Int).Sub(new(big.Int).Mul(px, dy), new(big.Int).Mul(py, dx))
+		num.Mul(cross, cross)
+		den = lenSq
+	}
+	q := new(big.Float).SetPrec(200).Quo(new(big.Float).SetPrec(200).SetInt(num), new(big.Float).SetPrec(200).SetInt(den))
+	f, _ := q.Sqrt(q).Float64()
+	return f
 }
